@@ -245,7 +245,7 @@ def run(ctx, chk):
     for mod, rules, tag in ((C11, ('C11.P1', 'C11.P2', 'C11.P3', 'C11.P4'), 'C04.T4'), (C03, ('C03.G1',), 'C04.T7'),
                             (C16, ('C16.V1', 'C16.V2', 'C16.V3'), 'C04.T8')):
         sub = type(chk)('C04', LEVEL, chk.tier)
-        mod.run(ctx, sub)
+        getattr(mod, 'run_rules', mod.run)(ctx, sub)
         for o in sub.obs:
             if o['rule'] in rules and o['nontrivial']:
                 chk.ob(tag, '%s:%s' % (o['rule'], o['key']), o['ok'], o['where'], o['detail'])
